@@ -23,9 +23,16 @@ EXPLANATION = (
     "add branch (plate fusion) the permutation of white_vec is kept ints + reduced ints + [rank axis] and that of prec_sqrt is kept ints "
     "+ [real axis] + reduced ints + [rank axis], and the reshapes keep len(kept) resp. len(kept) + 1 leading axes, so the reduced batch "
     "axes are flattened into the rank axis in the same order for both factors; a real variable among the reduced ones raises. R13.4 "
-    "(shared with C12): offsets and block splits follow the inputs in order."
+    "(shared with C12): offsets and block splits follow the inputs in order. R13.5: Integrate rules sum the remaining integer variables with "
+    "ops.add. R13.6: after align_gaussian(…, X) the raw factors of X are not read again, and a branch that skips the alignment is guarded by "
+    "an order-sensitive comparison. R13.7: _marginalize_after_split compares the rank with the size of the integrated block. R13.8 / R13.9 "
+    "(set evaluator over worlds of at most three inputs, each real or integer, reduced or kept, of the measure / the integrand / both): a "
+    "Gaussian-mixture rule hands the integral to the Gaussian component alone only when no integer variable is reduced; where a rule returns "
+    "Tensor(data, I).reduce(op, S), S lies within I and I is exactly the integer inputs of the operands. R13.10: factors aligned to inputs "
+    "merged from several operands are expanded (expand=True) before a Gaussian is declared over the merged inputs."
 )
-ASSUMPTIONS = ["Cholesky / triangular-solve formulas, log_normalizer, Integrate rules and moment matching are not decided"]
+ASSUMPTIONS = ["Cholesky / triangular-solve formulas, log_normalizer, the closed forms of the Integrate rules and moment matching are not decided",
+               "the data computed by the Integrate rules from means and normalisers has exactly the batch axes of the operands (R13.9)"]
 RULE_TEXT = "one obligation per return of a splitting rule, per index-set use, per permutation"
 
 
@@ -39,6 +46,115 @@ def _tokens(e: ast.AST) -> Optional[List[str]]:
     if isinstance(e, ast.List) and len(e.elts) == 1:
         return ["[" + norm(e.elts[0]) + "]"]
     return None
+
+
+def _integrate_set_bookkeeping(prog: Program, col: Collector, refs: Refs, cat: Catalogue):
+    """The Integrate rules whose measure is a Gaussian (mixture) decide by set algebra over the reduced variables which inputs the result
+    keeps and which are summed afterwards.  Interpreted in every world of at most three inputs (real / integer, reduced / kept, of the
+    measure / the integrand / both) by the analyser's set evaluator:
+    R13.8 a rule for a mixture `discrete + gaussian` hands the integral to the Gaussian component alone only on paths where no INTEGER
+          variable is reduced (the discrete component depends on the integer inputs, so their sum does not commute with the product);
+    R13.9 where a rule returns `Tensor(data, I).reduce(op, S)`: S is contained in I (a name dropped from I cannot be summed any more), I has
+          no real input, and I keeps every integer input of the operands (the data computed from means / normalisers has exactly the batch axes)."""
+    from . import setworlds as sw
+    col.rule("R13.8", "a Gaussian-mixture Integrate rule pushes the integral onto the Gaussian component only when every reduced variable is real", floor=1)
+    r8 = col.cur
+    col.rule("R13.9", "Tensor(data, I).reduce(op, S) in an Integrate rule: S within I, I = the integer inputs of the operands", floor=2)
+    r9 = col.cur
+    n8 = n9 = 0
+    for reg in cat.registrations:
+        g_ = reg.target
+        if g_ is None or not reg.pattern or isinstance(g_.node, ast.Lambda) or refs.resolve(reg.pattern[0]) != "funsor.integrate.Integrate" or len(reg.pattern) < 4:
+            continue
+        measure = (refs.resolve(reg.pattern[1]) or "").rsplit(".", 1)[-1] if isinstance(reg.pattern[1], (ast.Name, ast.Attribute)) else norm(reg.pattern[1])
+        if measure not in ("Gaussian", "GaussianMixture") or len(g_.positional) != 3:
+            continue
+        pm, pi, pr = g_.positional
+        reads_inputs_of = {y.value.id for y in ast.walk(g_.node) if isinstance(y, ast.Attribute) and y.attr in ("inputs", "input_vars") and isinstance(y.value, ast.Name)}
+        # findings keyed by construct; first witness world kept
+        bad: dict = {}
+        good: dict = {}
+        unk: dict = {}
+
+        def note(table, key, msg, node):
+            table.setdefault(key, (msg, node))
+
+        def on_stmt(st, en, g_=g_, pm=pm, pi=pi, pr=pr):
+            W = en["<world>"]
+            if not isinstance(st, ast.Return) or st.value is None:
+                return
+            # R13.8: nested Integrate(<component>, ..., R) in a mixture rule
+            if measure == "GaussianMixture":
+                for c in ast.walk(st.value):
+                    if isinstance(c, ast.Call) and (refs.resolve(c.func) or "").endswith("Integrate") and len(c.args) == 3 and norm(c.args[0]) != pm:
+                        key = f"{g_.fq}::{norm(c)[:60]}"
+                        R = sw.ev(c.args[2], en)
+                        if not isinstance(R, frozenset):
+                            note(unk, key, f"the reduced variables `{norm(c.args[2])}` handed on are not a set expression the evaluator knows", c)
+                        elif any(a.dtype != "real" for a in R):
+                            note(bad, key, f"reached with an integer variable among `{norm(c.args[2])}` (world: {sorted(map(repr, W))}): the integral is pushed onto the Gaussian component "
+                                 "alone, but the discrete component depends on that integer input - the sum over it is taken of the Gaussian's integral only and the weights are "
+                                 "multiplied in afterwards, so the result still depends on the variable and has the wrong value", c)
+                        else:
+                            note(good, key, "on every path that reaches it the reduced variables are all real", c)
+            # R13.9: Tensor(data, I).reduce(op, S)
+            v = st.value
+            if isinstance(v, ast.Call) and isinstance(v.func, ast.Attribute) and v.func.attr == "reduce" and len(v.args) == 2:
+                recv = v.func.value
+                if isinstance(recv, ast.Name):
+                    recv = en.get("<def>" + recv.id)
+                if isinstance(recv, ast.Call) and (refs.resolve(recv.func) or "").endswith("Tensor") and len(recv.args) >= 2:
+                    key = f"{g_.fq}::{norm(v)[:60]}"
+                    I = en.get("<val>" + norm(v.func.value)) if isinstance(v.func.value, ast.Name) else sw.ev(recv.args[1], en)
+                    S = sw.ev(v.args[1], en)
+                    if not isinstance(I, frozenset) or not isinstance(S, frozenset):
+                        note(unk, key, f"inputs `{norm(recv.args[1])}` or reduced set `{norm(v.args[1])}` not evaluated", v)
+                        return
+                    sides = {"lhs"} | ({"rhs"} if pi in reads_inputs_of else set())
+                    rel = frozenset(a for a in W if a.where == "both" or a.where in sides)  # inputs of the operands this rule looks at
+                    I, S = I & rel, S & rel
+                    ints = frozenset(a for a in rel if a.dtype != "real")
+                    if not S <= I:
+                        note(bad, key, f"in the world {sorted(map(repr, W))} the result is built over {sorted(map(repr, I))} and then asked to sum {sorted(map(repr, S - I))}, "
+                             "which is no longer among its inputs while the data still has that axis: the construction fails (or the axis is attributed to another input) whenever an "
+                             "integer variable is reduced together with the real ones", v)
+                    elif any(a.dtype == "real" for a in I):
+                        note(bad, key, f"in the world {sorted(map(repr, W))} the inputs of the result keep the real input(s) {sorted(repr(a) for a in I if a.dtype == 'real')}, "
+                             "which the data (batch axes only) has no axis for", v)
+                    elif not ints <= I:
+                        note(bad, key, f"in the world {sorted(map(repr, W))} the integer input(s) {sorted(map(repr, ints - I))} are missing from the inputs of the result although the "
+                             "data has an axis for each", v)
+                    else:
+                        note(good, key, "in every world the summed names are inputs of the result, which are exactly the integer inputs of the operands", v)
+
+        def on_stmt_track(st, en):
+            on_stmt(st, en)
+            if isinstance(st, ast.Assign) and len(st.targets) == 1 and isinstance(st.targets[0], ast.Name) and isinstance(st.value, ast.Call) \
+                    and (refs.resolve(st.value.func) or "").endswith("Tensor") and len(st.value.args) >= 2:
+                en["<def>" + st.targets[0].id] = st.value
+                en["<val>" + st.targets[0].id] = sw.ev(st.value.args[1], en)
+
+        try:
+            for W in sw.worlds(3):
+                env = {"<world>": W, pm: sw.Operand("lhs"), pi: sw.Operand("rhs"), pr: frozenset(a for a in W if a.reduced)}
+                sw.run_paths(g_.node.body, env, on_stmt_track, [20000])
+        except OverflowError:
+            col.cur = r9
+            col.unresolved(f"{g_.fq}", "path budget of the set evaluator exhausted", g_.loc())
+            continue
+        for table, kind in ((bad, "violation"), (unk, "unresolved"), (good, "ok")):
+            for key, (msg, node) in table.items():
+                if kind == "ok" and (key in bad or key in unk):
+                    continue
+                if kind == "unresolved" and key in bad:
+                    continue
+                col.cur = r8 if "Integrate(" in key.split("::", 2)[-1] else r9
+                getattr(col, kind)(key, msg, g_.loc(node))
+                if col.cur is r8:
+                    n8 += 1
+                else:
+                    n9 += 1
+    col.cur = r9
 
 
 def run(prog: Program, col: Collector, tier: str, refs: Optional[Refs] = None, cat: Optional[Catalogue] = None):
@@ -158,6 +274,24 @@ def run(prog: Program, col: Collector, tier: str, refs: Optional[Refs] = None, c
             col.check(not stale, f"{g_.fq}::align_gaussian(…, {X})", f"after the alignment only the aligned factors of `{X}` are used",
                       f"`{norm(stale[0]) if stale else ''}` is read after `{X}` was aligned: the raw factor still has `{X}`'s own order of real inputs and batch layout, so it is combined "
                       "with the other operand's blocks under the wrong inputs whenever the two layouts differ", g_.loc(stale[0]) if stale else g_.loc(a))
+            # a raw read in the OTHER arm of a conditional around the alignment is a fast path that skips it: sound only under an order-sensitive test
+            from .kernels import _order_sensitive_inputs_test
+            seen_ifs = set()
+            for y in ast.walk(g_.node):
+                if not (isinstance(y, ast.Attribute) and y.attr in ("white_vec", "prec_sqrt") and isinstance(y.value, ast.Name) and y.value.id == X) or y in stale:
+                    continue
+                for if_ in [x for x in g_.module.ancestors(y) if isinstance(x, ast.If)]:
+                    in_body = lambda n_, blk: any(n_ is z for st_ in blk for z in ast.walk(st_))
+                    if id(if_) not in seen_ifs and ((in_body(y, if_.body) and in_body(a, if_.orelse)) or (in_body(y, if_.orelse) and in_body(a, if_.body))):
+                        seen_ifs.add(id(if_))
+                        verdict, why_ = _order_sensitive_inputs_test(if_.test)
+                        construct = f"{g_.fq}::align_gaussian(…, {X}) skipped"
+                        if verdict is False:
+                            col.violation(construct, f"{why_}; `{norm(y)}` is then combined with the other operand's aligned blocks although `{X}` lists its inputs in another order", g_.loc(if_))
+                        elif verdict is None:
+                            col.unresolved(construct, f"`{X}` is aligned only under `{norm(if_.test)[:50]}`", g_.loc(if_))
+                        else:
+                            col.ok(construct, "the alignment is skipped only when the inputs agree as ordered mappings", g_.loc(if_))
     # ---------------------------------------------------------------- R13.7 the rank test of the marginalisation helper
     col.rule("R13.7", "what remains after integrating a block out is decided by comparing the rank with the size of THAT block", floor=1)
     h = prog.funcs.get("funsor.gaussian::Gaussian._marginalize_after_split")
@@ -172,6 +306,53 @@ def run(prog: Program, col: Collector, tier: str, refs: Optional[Refs] = None, c
         col.check(ok, f"{h.fq}::if {norm(t_.test)}", f"the rank is compared with the size of the integrated block `{blk_a}`",
                   f"`{norm(t_.test)}` compares the rank with {', '.join(f'{nm} = {dims[nm]}' for nm in names) or 'something else'}: information about the remaining inputs is left exactly "
                   f"when rank > dim({blk_a}); comparing with the other block drops (or invents) the Gaussian over the remaining inputs for rank-deficient factors", h.loc(t_))
+    # ---------------------------------------------------------------- R13.8 / R13.9 set bookkeeping of the Integrate rules, in every world
+    _integrate_set_bookkeeping(prog, col, refs, cat)
+    # ---------------------------------------------------------------- R13.10 a Gaussian declared over merged inputs needs expanded factors
+    col.rule("R13.10", "factors aligned to inputs merged from several operands are expanded before a Gaussian is declared over those inputs", floor=2)
+    for g_ in prog.funcs.values():
+        if isinstance(g_.node, ast.Lambda):
+            continue
+        als = [st for st in ast.walk(g_.node) if isinstance(st, ast.Assign) and isinstance(st.value, ast.Call) and norm(st.value.func).endswith("align_gaussian") and len(st.value.args) >= 2
+               and isinstance(st.value.args[0], ast.Name) and isinstance(st.value.args[1], ast.Name) and isinstance(st.targets[0], ast.Tuple) and len(st.targets[0].elts) == 2]
+        for a in als:
+            I, X = a.value.args[0].id, a.value.args[1].id
+            outs = {norm(e) for e in a.targets[0].elts}
+            ctor = [c for c in ast.walk(g_.node) if isinstance(c, ast.Call) and (refs.resolve(c.func) or "").endswith("gaussian.Gaussian")
+                    and {norm(x) for x in list(c.args[:2]) + [k.value for k in c.keywords if k.arg in ("white_vec", "prec_sqrt")]} == outs
+                    and I in {norm(x) for x in list(c.args[2:3]) + [k.value for k in c.keywords if k.arg == "inputs"]}]
+            stores = [y.id for y in ast.walk(g_.node) if isinstance(y, ast.Name) and isinstance(y.ctx, ast.Store) and y.id in outs]
+            if not ctor or len(stores) != len(outs):  # rebound names: the constructor may see other values (e.g. after an explicit ops.expand)
+                continue
+            # which operands' inputs the mapping I is built from
+            srcs = set()
+            for st in ast.walk(g_.node):
+                dfn = None
+                if isinstance(st, ast.Assign) and norm(st.targets[0]) == I:
+                    dfn = st.value
+                elif isinstance(st, ast.Call) and isinstance(st.func, ast.Attribute) and st.func.attr == "update" and norm(st.func.value) == I and st.args:
+                    dfn = st.args[0]
+                if dfn is None:
+                    continue
+                loopvars = {}
+                for cmp_ in ast.walk(dfn):
+                    if isinstance(cmp_, ast.comprehension) and isinstance(cmp_.target, ast.Name) and isinstance(cmp_.iter, (ast.Tuple, ast.List)):
+                        loopvars[cmp_.target.id] = [norm(e) for e in cmp_.iter.elts]
+                for y in ast.walk(dfn):
+                    if isinstance(y, ast.Attribute) and y.attr == "inputs" and isinstance(y.value, ast.Name):
+                        srcs.update(loopvars.get(y.value.id, [y.value.id]))
+            srcs.discard(I)
+            kw = next((k.value for k in a.value.keywords if k.arg == "expand"), a.value.args[2] if len(a.value.args) >= 3 else None)
+            construct = f"{g_.fq}::Gaussian(align_gaussian({I}, {X}))"
+            if srcs <= {X}:
+                col.ok(construct, f"`{I}` is a reordering of `{X}`'s own inputs", g_.loc(a))
+            elif kw is None or (isinstance(kw, ast.Constant) and kw.value is False):
+                col.violation(construct, f"`{I}` merges the inputs of {sorted(srcs)} but `{X}` is aligned without expand=True: for a batch input that `{X}` lacks the aligned factors have "
+                              f"size 1, and the Gaussian declared over `{I}` fails its shape check (an integer input only the other operand has)", g_.loc(a))
+            elif isinstance(kw, ast.Constant) and kw.value is True:
+                col.ok(construct, "aligned with expand=True", g_.loc(a))
+            else:
+                col.unresolved(construct, f"expand={norm(kw)} is not a constant", g_.loc(a))
     # ---------------------------------------------------------------- R13.4
     col.rule("R13.4", "offsets and block splits follow the inputs in order (shared with C12 R12.1 / R12.2)", floor=2)
     sub = Collector("C12")
